@@ -2,6 +2,7 @@
 # tools/seedcheck.sh <prop> <k> [vcheck args]: confirm a seeded change (from /tmp/seed_<prop>/m<k>) in its scratch worktree, then run the
 # property's check against the patched tree (VX_REPO = the scratch worktree, /repo itself is not touched) and file it under /verif/seeded/.
 P=$1; K=$2; shift 2
+CHK=${CHK:-$P}     # CHK=<other property>: run another property's check against this seed (seeds that land in a neighbouring property's code)
 WT=/tmp/wt_$P; S=/tmp/seed_$P/m$K; OUT=/verif/seeded/${P}_m$K; LOG=/tmp/seedcheck_${P}_m$K.log
 mkdir -p $OUT; exec > $LOG 2>&1
 set -x
@@ -10,7 +11,7 @@ cmake --build $WT/_build -j6 > /dev/null || { echo BUILD-FAILED; exit 3; }
 ctest --test-dir $WT/_build -j6 --timeout 900 2>&1 | tail -3 > $OUT/ctest_with_patch.txt; cat $OUT/ctest_with_patch.txt
 g++ -std=gnu++17 -DHAVE_CONFIG_H=1 -I$WT/src -I$WT/_build/src -I$WT/_build $S/demo.cpp -o /tmp/demo_${P}_$K -L$WT/_build/src -l:libxerces-c-4.0.so -Wl,-rpath,$WT/_build/src
 (cd /tmp && timeout 300 /tmp/demo_${P}_$K > /tmp/demo_${P}_$K.out 2>&1); DEMO_PATCHED=$?
-cd /verif && VX_REPO=$WT timeout 3000 ./vcheck $P --no-evidence "$@" > $OUT/vcheck_with_patch.txt 2>&1; VC=$?
+cd /verif && VX_REPO=$WT timeout 3000 ./vcheck $CHK --no-evidence "$@" > $OUT/vcheck_with_patch.txt 2>&1; VC=$?
 git -C $WT checkout -- . ; cmake --build $WT/_build -j6 > /dev/null
 (cd /tmp && timeout 300 /tmp/demo_${P}_$K > /dev/null 2>&1); DEMO_CLEAN=$?
 cp $S/patch.diff $S/demo.cpp $OUT/; cp $S/README.txt $OUT/agent_README.txt
@@ -21,7 +22,7 @@ vc=open('$OUT/vcheck_with_patch.txt').read()
 json.dump({'property':'$P','seed':'m$K','ctest_with_patch':ct.strip().split('\n')[0] if ct.strip() else '', 'tests_pass_with_patch': '100% tests passed' in ct,
  'demo_exit_with_patch':$DEMO_PATCHED,'demo_exit_clean':$DEMO_CLEAN,'vcheck_exit_with_patch':$VC,
  'vcheck_violations':[l for l in vc.split('\n') if l.startswith('VIOLATION')][:6],'vcheck_inconclusive':[l[:300] for l in vc.split('\n') if l.startswith('INCONCLUSIVE')][:4],
- 'detected': $VC==1, 'ran':'tools/seedcheck.sh $P $K $*'}, open('$OUT/meta.json','w'), indent=1)
+ 'detected': $VC==1, 'checked_with':'$CHK', 'ran':'tools/seedcheck.sh $P $K $*'}, open('$OUT/meta.json','w'), indent=1)
 EOF
 rm -f /tmp/demo_${P}_$K /tmp/demo_${P}_$K.out
 echo DONE vcheck=$VC demo_patched=$DEMO_PATCHED demo_clean=$DEMO_CLEAN
